@@ -251,6 +251,8 @@ def configs(tier, seed):
     ress = [(p, ai) for p in PATHS3 for ai in (0,)]
     # all subsets of <= 3 resource paths
     sets = [()] + [(r,) for r in ress] + list(itertools.combinations(ress, 2)) + list(itertools.combinations(ress, 3))
+    if tier == "thorough":
+        sets += list(itertools.combinations(ress, 4))
     stride = 7 if tier == "quick" else 1
     for i, rs in enumerate(sets):
         if stride > 1 and (i + seed) % stride and len(rs) == 3:
@@ -290,10 +292,12 @@ OPS = [("add", ("a",), "r"), ("add", ("a", "b"), "r"), ("add", (), "r"), ("add",
 
 
 def histories(res, firsts):
-    """E3: add/remove histories; the site object is mutated in place, the model rebuilt from the history."""
+    """E3: add/remove histories; the site object is mutated in place, the model rebuilt from the history.
+    An element of firsts is one operation or a tuple of operations (a prefix)."""
     for first in firsts:
+        prefix = first if isinstance(first[0], tuple) else (first,)
         for rest in itertools.chain([()], itertools.product(OPS, repeat=1), itertools.product(OPS, repeat=2)):
-            hist = (first,) + rest
+            hist = prefix + rest
             log = []
             site_holder = {}
 
@@ -366,6 +370,8 @@ def run(tier, seed, jobs):
     n = 64
     work = [("cfg", cfgs[i::n]) for i in range(n)]
     work += [("hist", [op]) for op in OPS if op[0] == "add"]
+    if tier == "thorough":
+        work += [("hist", [(a, b)]) for a in OPS if a[0] == "add" for b in OPS]     # depth 4
     res = core.prun(job, work, jobs)
     res.scenarios["space"] = {"configurations": len(cfgs), "request_paths": len(PATHS4), "filters": len(FILTERS), "history_ops": len(OPS)}
     return res
@@ -378,7 +384,8 @@ def _tup(x):
 def replay(case, scenario, seed):
     res = Result()
     if "history" in case:
-        histories(res, [_tup(case["history"])[0]])
+        h = _tup(case["history"])
+        histories(res, [tuple(h[:max(1, len(h) - 2)])])
     else:
         cfg = _tup(case["cfg"])
         check_config(res, cfg, PATHS4)
